@@ -635,7 +635,8 @@ class C03(Prop):
                   "heap model of add_array () with its five reference-count tests regenerated from array.c: whatever branch is taken the "
                   "result holds p ++ r with one reference, an operand is reused only when the call held its only references, every array "
                   "still referenced keeps its elements and an exact count (Heap.addArray_refines), compared with the real add_array on "
-                  "unit traces; the conditions of the grammar's typed rewrites are regenerated and fire only for TYPE_NUMBER operands "
+                  "unit traces; heap model of slice_array () with its in-place test and exits regenerated: a range of an array somebody "
+                  "still holds is a new block (Heap.sliceArray_refines); the conditions of the grammar's typed rewrites are regenerated and fire only for TYPE_NUMBER operands "
                   "(rw_guards_int).  "
                   "Whole programs: generated typed programs in sibling "
                   "spellings run in the real driver and must equal the LpcOps-based evaluator exactly; the reference "
@@ -644,7 +645,7 @@ class C03(Prop):
                   "abstract in the theorems (FloatOps) and IEEE doubles in the driver; in-place fast paths keyed on reference counts "
                   "(add_array, string join, absorb / compose_mapping) are compared on generated self / aliased operand programs only "
                   "(no heap model); shift counts outside 0..63 are outside the model")
-    rule = ("cases = corpus + known-finding inputs + boundary list + seeded random cases from 21 families (binary/unary "
+    rule = ("cases = corpus + known-finding inputs + boundary list + seeded random cases from 22 families (binary/unary "
             "operators, op=, ++/--, index, range, index/range/char lvalues, integer / nested / string switches, loops, local / "
             "inherited / function-pointer calls, macros vs hand expansion, literals, zero-comparison rewrites, mapping algebra "
             "around every growMap threshold, self-operand / aliased-operand / freshness forms of the container and string operators "
@@ -657,11 +658,12 @@ class C03(Prop):
             "non-trivial when at least one function returns a value (not an error); distinct = distinct canonical trace")
     not_covered = ["identity of arrays and mappings: == on containers, stores seen through a shared reference (b = a; a[0] = 1) - the "
                    "reference evaluates by value, the generator only produces programs where LPC promises value semantics (self / aliased "
-                   "operands and freshness of results are generated and judged; heap-level theorem for add_array only - string join, "
+                   "operands and freshness of results are generated and judged; heap-level theorems for add_array and slice_array only - string join, "
                    "absorb_mapping / compose_mapping in-place paths are compared, not proved)",
                    "functionals: missing / surplus arguments beyond the generated shapes, varargs, function pointers stored in containers "
                    "or passed between objects, bind(); code generation for functionals (icode.c) is compared through programs only",
-                   "class members as operands of the self-operand forms; `&` / `|` on arrays",
+                   "class members as operands of the self-operand forms; `&` / `|` on arrays; freshness of results of explode / implode, "
+                   "keys / values, filter / map / sort_array / unique_array (not in the reference semantics); copy () of a buffer",
                    "shift counts outside 0..63 (C undefined behaviour; the model uses the x86 masking)",
                    "sign of a floating zero produced by folded `0 - x`",
                    "`-=` on char lvalues (documented as supported, raises 'Bad left type to -=')",
@@ -2112,6 +2114,14 @@ class C03(Prop):
                 out.append(ini + [("expr", ("asg", L(B), h))] + rep(("expr", ("aop", op, h, h))) + [("ret", Arr([result(None), L(B)]))])
                 out.append(ini + [("expr", ("asg", L(B), h))] + rep(("expr", ("asg", h, ("bin", op, h, h)))) + [("ret", Arr([result(None), L(B)]))])
                 extra = [[len(out) - 2, len(out) - 1]]
+            # a right operand of ANOTHER size (the copy offsets of buffer / string / array `+=` must come from the left operand)
+            oth = {"arr": Arr([I(5)]), "str": S(b"!?"), "buf": Buf([1, 2, 3] if kind != "buf" or len(bs) != 3 else [9]),
+                   "map": Map([(I(-3), I(1))]), "num": I(3)}[kind]
+            if not (kind == "map" and op == "mul"):
+                out.append(ini + [("expr", ("aop", op, h, oth)), ("ret", result(None))])
+                out.append(ini + [("expr", ("asg", h, ("bin", op, h, oth))), ("ret", result(None))])
+                out.append(ini + [("expr", ("asg", L(B), oth)), ("expr", ("aop", op, h, L(B))), ("ret", result(None))])
+                extra.append([len(out) - 3, len(out) - 2, len(out) - 1])
             if times == 1:
                 # the value of the op= expression itself
                 out.append(ini + [("ret", ("aop", op, h, h))])
@@ -2317,6 +2327,17 @@ class C03(Prop):
             # store into the RESULT, read the operand; store into the OPERAND, read the result; both
             fns.append(pre + init + [("expr", ("asg", L(D), e))] + st_res + [("ret", Arr([L(D), H]))])
             fns.append(pre + init + [("expr", ("asg", L(D), e)), ("expr", ("asg", ("idx", H, key), newv2)), ("ret", Arr([L(D), H]))])
+        if kind in ("arr", "map"):
+            # copy () is DEEP: a store into a nested container of the copy (or of the original) does not show in the other
+            inner = rng.choice([Arr([I(1), I(2)]), Map([(I(1), I(2))])])
+            ikey = I(0) if inner[0] == "arr" else I(1)
+            if kind == "arr":
+                nest, okey = Arr([I(7), inner, S(b"z")]), I(1)
+            else:
+                nest, okey = Map([(S(b"k"), inner), (I(3), I(4))]), S(b"k")
+            for tgt, oth in ((L(D), H), (H, L(D))):
+                fns.append([("expr", ("asg", H, nest)), ("expr", ("asg", L(D), ("efun", "copy", [H]))),
+                            ("expr", ("asg", ("idx", ("idx", tgt, okey), ikey), I(99))), ("ret", Arr([L(D), H]))])
         # allocate (): two results are two arrays
         fns.append([("expr", ("asg", L(A), ("efun", "allocate", [I(n)]))), ("expr", ("asg", L(B), ("efun", "allocate", [I(n)]))),
                     ("expr", ("asg", ("idx", L(A), I(0)), I(5))), ("ret", Arr([L(A), L(B)]))])
